@@ -331,6 +331,7 @@ type stateInfo struct {
 	classes []string                // op classes of the history
 	values  []string                // tag string values written by the history
 	creator map[b6.FeatureID]string // class of the operation that last added/replaced an overlay feature
+	place   string                  // part V: where the value under test is stored
 }
 
 func (i *stateInfo) note(o op) {
@@ -370,6 +371,9 @@ func (i *stateInfo) trigger() string {
 		l = append(l, c)
 	}
 	sort.Strings(l)
+	if i.place != "" {
+		return strings.Join(l, "+") + ":in-" + i.place
+	}
 	return strings.Join(l, "+")
 }
 
@@ -476,7 +480,11 @@ func (c *world) classifyDiffs(a, b wk.Dump, edited, reimported *ingest.MutableOv
 		case "tagstr", "tags":
 		case "rest":
 			id := b6.FeatureIDFromString(arg)
-			out["feature-differs:"+info.origin(id)] = true
+			if strings.HasPrefix(info.origin(id), "add-collection:string-") {
+				out["collection-item-differs:"+info.trigger()] = true
+			} else {
+				out["feature-differs:"+info.origin(id)] = true
+			}
 		case "feat":
 			id := b6.FeatureIDFromString(arg)
 			switch {
@@ -652,9 +660,10 @@ func runHistory(c *world, r *kit.Result, alphabet []op, first int, depth int, re
 		info.hist = strings.Join(names, " · ")
 		r.States++
 		r.Transitions++
+		// canonical key: the whole private state (overlaid features, modified
+		// tags, reference lists, search index posting lists)
 		private := ingest.VerifC18OverlayState(w)
-		ed := c.dump(w)
-		key := hash(private + "\x00" + ed.String())
+		key := hash(private)
 		if seenState[key] {
 			r.AddOutcome(fmt.Sprintf("depth%d:state-already-checked", len(path)))
 			return true
@@ -663,6 +672,7 @@ func runHistory(c *world, r *kit.Result, alphabet []op, first int, depth int, re
 		if private != "" {
 			r.Keys = append(r.Keys, key)
 		}
+		ed := c.dump(w)
 		out := c.checkState(r, w, ed, info, reps)
 		r.AddOutcome(fmt.Sprintf("depth%d:%s", len(path), out))
 		r.Count("last-op:"+alphabet[path[len(path)-1]].class, 1)
@@ -731,7 +741,12 @@ func runValue(c *world, r *kit.Result, v string, reps int) {
 	)
 	for _, s := range subs {
 		w := ingest.NewMutableOverlayWorld(c.base)
-		info := &stateInfo{}
+		info := &stateInfo{place: "tag"}
+		if strings.Contains(s.where, "collection-string") {
+			info.place = "collection-item"
+		} else if strings.Contains(s.where, "member-role") {
+			info.place = "relation-role"
+		}
 		var names []string
 		ok := true
 		for _, o := range s.ops {
@@ -773,7 +788,7 @@ func main() {
 		ID: "C18", Level: "model_checking",
 		Rule: "Part V: every value of the tag-string menu (numbers, lat-lngs, feature IDs, ';' lists, YAML-special scalars, quotes, colons, leading '#', newline, empty) stored in every place of a fixed list (AddTag with plain/searchable key on each base and overlay feature type, overriding existing tags, tags of newly added features of each type, relation roles, collection keys/values). " +
 			"Part H: every sequence of <= D successful operations of the alphabet (20 feature additions + AddTag/RemoveTag on 10 targets x {#s,p} x core values, overrides, removals) applied to a fresh MutableOverlayWorld over the base; a sequence is cut at the first rejected operation; the third level uses the reduced (deep) alphabet. " +
-			"Every reached state is checked unless a state with the same private state (features, modified tags, reference lists) and the same canonical dump was already checked in the case. Non-trivial = the overlay holds at least one modification; distinct = distinct private states. " +
+			"Every reached state is checked unless a state with the same private state (overlaid features, modified tags, reference lists, search index posting lists) was already checked in the case. Non-trivial = the overlay holds at least one modification; distinct = distinct private states. " +
 			"Oracle: export with ExportChangesAsYAML, apply with IngestChangesFromYAML to a fresh MutableOverlayWorld over the same base, canonical dumps equal on every section (lookups, tag keys and value strings, value kinds, references, geometry at E7, members, items, locations, referrers, traversal, tag searches, enumeration). The export is repeated (map iteration order inside the exporter is not controllable) and each distinct file is imported.",
 		Assumptions: []string{
 			"geometry is compared at E7 precision; polygon loops up to rotation",
@@ -822,26 +837,26 @@ func main() {
 				return w, err
 			}
 			return kit.FuncSpace{N: int64(len(cases)), F: func(i int64) kit.Result {
-				var r kit.Result
-				cd := cases[i]
-				c, err := get(cd.scheme)
-				if err != nil {
-					r.Violate("harness:base-build", "%v", err)
+					var r kit.Result
+					cd := cases[i]
+					c, err := get(cd.scheme)
+					if err != nil {
+						r.Violate("harness:base-build", "%v", err)
+						return r
+					}
+					cc := *c
+					c = &cc
+					if cd.part == "V" {
+						c.queries = queriesFor(append(append([]string{}, coreValues...), cd.value))
+						runValue(c, &r, cd.value, reps)
+						return r
+					}
+					c.queries = queriesFor(coreValues)
+					alphabet := append(featureOps(c.x), tagOps(c.x, coreValues, deepValues)...)
+					runHistory(c, &r, alphabet, cd.first, depth, reps, cd.first%17 == 0)
 					return r
-				}
-				cc := *c
-				c = &cc
-				if cd.part == "V" {
-					c.queries = queriesFor(append(append([]string{}, coreValues...), cd.value))
-					runValue(c, &r, cd.value, reps)
-					return r
-				}
-				c.queries = queriesFor(coreValues)
-				alphabet := append(featureOps(c.x), tagOps(c.x, coreValues, deepValues)...)
-				runHistory(c, &r, alphabet, cd.first, depth, reps, cd.first%17 == 0)
-				return r
-			}}, fmt.Sprintf("part V: %d values x 28 places x %d ID schemes; part H: all histories of <= %d successful operations over %d operations (level 3: %d-operation reduced alphabet), scheme %s; each export repeated %d times",
-				len(valueMenu), len(schemes), depth, nOps, nDeep, wk.Schemes[schemes[0]].Name, reps)
+				}}, fmt.Sprintf("part V: %d values x 28 places x %d ID schemes; part H: all histories of <= %d successful operations over %d operations (level 3: %d-operation reduced alphabet), scheme %s; each export repeated %d times",
+					len(valueMenu), len(schemes), depth, nOps, nDeep, wk.Schemes[schemes[0]].Name, reps)
 		},
 	})
 }
